@@ -161,7 +161,7 @@ func genWorld(seed uint64, tier string, mode string) *Script {
 		if g.p(25) {
 			c.AddPathRecv = true
 		}
-		if o.AddPath && g.p(40) && c.Kind != "rsclient" {
+		if o.AddPath && g.p(40) {
 			c.SendMax = g.rng(1, 3)
 		}
 		if g.p(20) {
